@@ -148,3 +148,12 @@ prop('C20', units=['pdf'], level='proof',
      level_note='load_pages (pdf text extraction) and get_num_pages < u32::MAX are assumed; Iterator::next is verified as an inherent method (rule R23); hole_missing_pages / hole_to_deque paraphrase std iterator chains.',
      not_covered=['FmvParseSm regex state machine', 'pdf text extraction'],
      witnesses=[])
+
+
+prop('C19', units=['etr'], level='proof',
+     technique='Verus: amend_benefit_sales - multiset conservation of trade confirmations (leftover + consumed == all, consumed are sales), exchange argument for the position search, descending removal; benefits passed through with dates of a sale within [benefit date, +5 days]',
+     level_text='Deductive proof (Verus) of the matching/accounting core of the E*TRADE extraction for all benefit and confirmation lists: every confirmation ends up exactly once (leftover or consumed by a sell-to-cover), only sales in the five-day window are consumed, benefits are otherwise unchanged. The PDF text parsers, the subset search and the rendering of purchases/sales into rows are not verified.',
+     level_note='find_sell_to_cover_trade_set (itertools search) is assumed to return distinct candidate positions, at least one; hole_position paraphrases iter().enumerate().position(..); BrokerTx / BenefitEntry equality is structural (derived); model E.',
+     not_covered=['regex parsers of benefit / trade confirmation PDFs', 'find_sell_to_cover_trade_set (share counts adding up to the sold shares)', 'txs_from_data: one purchase per benefit at FMV, sell-to-cover sale rows, manual trades'],
+     witnesses=['D8'])
+ALL_UNITS.append('etr')
